@@ -1,5 +1,6 @@
 import BqVerif.Model.QasmPrint
 import BqVerif.Proofs.QasmInline
+import BqVerif.Proofs.QasmRegs
 /-! # The writer's statement format is read back (tokens)
 
 For an operation list over gates of the table, the reader applied to the token string of the
@@ -323,104 +324,211 @@ theorem POp.Reads.loc {A : Arith V} {table : List BuiltinDef} {o : POp} {op : Op
   · exact ⟨by simp [Op.loc, c], by simp [c]⟩
   · exact ⟨mkPrim_loc A b o.loc vs _ hmk, c⟩
 
-/-- `Reads` for every line of a program -/
-inductive ReadsAll (A : Arith V) (table : List BuiltinDef) : List POp → List (Op V) → Prop where
-  | nil : ReadsAll A table [] []
-  | cons {o : POp} {op : Op V} {os : List POp} {es : List (Op V)} :
-      o.Reads A table op → ReadsAll A table os es → ReadsAll A table (o :: os) (op :: es)
+theorem indexedQubit_q (n q : Nat) (h : q < n) : indexedQubit [("q", n)] "q" q = some q := by
+  simp [indexedQubit, firstIndex, regSize, h]
 
-theorem argIndices_q (n q : Nat) : argIndices [("q", n)] (qArg q) = some [q] := by
-  simp [argIndices, qArg, firstIndex]
+theorem argIndices_q (n q : Nat) (h : q < n) : argIndices [("q", n)] (qArg q) = some [q] := by
+  simp [argIndices, qArg, indexedQubit_q n q h]
 
-theorem mapM_argIndices_q (n : Nat) (loc : List Nat) :
+theorem mapM_argIndices_q (n : Nat) (loc : List Nat) (h : ∀ q ∈ loc, q < n) :
     (loc.map qArg).mapM (argIndices [("q", n)]) = some (loc.map fun q => [q]) := by
   induction loc with
   | nil => rfl
-  | cons a as ih => simp [List.mapM_cons, argIndices_q, ih]
+  | cons a as ih =>
+    simp [List.mapM_cons, argIndices_q n a (h a (by simp)),
+      ih (fun q hq => h q (by simp [hq]))]
 
 theorem flatten_singletons (loc : List Nat) : (loc.map fun q => [q]).flatten = loc := by
   induction loc with
   | nil => rfl
   | cons a as ih => simp [ih]
 
-theorem anylistIndices_q (n : Nat) (loc : List Nat) :
+theorem anylistIndices_q (n : Nat) (loc : List Nat) (h : ∀ q ∈ loc, q < n) :
     anylistIndices [("q", n)] (loc.map qArg) = some loc := by
   unfold anylistIndices
-  have hlead : (loc.map qArg).takeWhile (·.idx.isNone) = [] := by
-    cases loc with
-    | nil => rfl
-    | cons a as => simp [qArg]
-  rw [hlead, mapM_argIndices_q]
+  rw [mapM_argIndices_q n loc h]
   simp [flatten_singletons]
 
 theorem elabStmt_op (A : Arith V) (s : St V) (n : Nat) (hq : s.qregs = [("q", n)]) (o : POp)
-    (op : Op V) (h : o.Reads A s.table op) :
+    (op : Op V) (h : o.Reads A s.table op) (hr : ∀ q ∈ o.loc, q < n) :
     elabStmt A s o.stmt = some { s with ops := op :: s.ops } := by
   rcases h with ⟨hn, _, _, hnd, rfl⟩ | ⟨hn, _, q, hl, rfl⟩ |
     ⟨hkw, _, hnd, b, vs, hb, hvs, hlen, hl, hop⟩
-  · simp only [POp.stmt, hn, if_true, elabStmt, hq, anylistIndices_q, hnd]
+  · simp only [POp.stmt, hn, if_true, elabStmt, hq, anylistIndices_q n o.loc hr, hnd]
   · have hne : ("reset" : String) ≠ "barrier" := by decide
+    have hqn : q < n := hr q (by simp [hl])
     simp only [POp.stmt, hn, hne, if_false, if_true, hl, List.headD_cons, elabStmt, elabReset,
-      qArg, hq, argIndices, firstIndex, Option.map_some, Nat.zero_add, List.map_cons,
-      List.map_nil, List.reverse_cons, List.reverse_nil, List.nil_append, List.cons_append]
+      hq, argIndices_q n q hqn, Option.map_some, List.map_cons, List.map_nil,
+      List.reverse_cons, List.reverse_nil, List.nil_append, List.cons_append]
   · have hnb : o.name ≠ "barrier" := by
       intro h; rw [h] at hkw; exact absurd hkw (by decide)
     have hnr : o.name ≠ "reset" := by
       intro h; rw [h] at hkw; exact absurd hkw (by decide)
     have hev : evalParams A (o.params.map PLit.qe) = some vs := by
       rw [evalParams, List.mapM_map]; exact hvs
-    simp only [POp.stmt, hnb, hnr, if_false, elabStmt, elabCall, hev, hq, anylistIndices_q, hnd,
-      St.lookup, hb, Bool.not_true, Bool.false_eq_true, GDef.np, GDef.nv, hlen, hl,
-      beq_self_eq_true, Bool.and_self, if_true, buildOp, hop, Option.map_some]
+    simp only [POp.stmt, hnb, hnr, if_false, elabStmt, elabCall, hev, hq,
+      anylistIndices_q n o.loc hr, hnd, St.lookup, hb, Bool.not_true, Bool.false_eq_true,
+      GDef.np, GDef.nv, hlen, hl, beq_self_eq_true, Bool.and_self, if_true, buildOp, hop,
+      Option.map_some]
+
+/-! ## lines with measurements -/
+
+def PLine.stmt : PLine → Stmt V
+  | .op o => o.stmt
+  | .meas q c i => .measure (qArg q) ⟨c, some i⟩
+
+/-- what the reader must rebuild from a line, in a circuit of `n` qubits with classical
+registers `cregs` -/
+def PLine.Reads (A : Arith V) (table : List BuiltinDef) (n : Nat) (cregs : Regs) :
+    PLine → Op V → Prop
+  | .op o, r => o.Reads A table r ∧ ∀ q ∈ o.loc, q < n
+  | .meas q c i, r =>
+    q < n ∧ (∃ sz, regSize cregs c = some sz ∧ i < sz) ∧ r = .measure [q] [(q, c, i)]
+
+/-- `Reads` for every line of a program -/
+inductive ReadsAll (A : Arith V) (table : List BuiltinDef) (n : Nat) (cregs : Regs) :
+    List PLine → List (Op V) → Prop where
+  | nil : ReadsAll A table n cregs [] []
+  | cons {l : PLine} {op : Op V} {ls : List PLine} {es : List (Op V)} :
+      l.Reads A table n cregs op → ReadsAll A table n cregs ls es →
+      ReadsAll A table n cregs (l :: ls) (op :: es)
+
+theorem pArg_bit (c : String) (i : Nat) (r : List Tok) :
+    pArg (.id c :: .sym "[" :: .num (toString i) :: .sym "]" :: r) = some (⟨c, some i⟩, r) := by
+  have h : parseNNInt (Nat.repr i) = some i := parseNNInt_toString i
+  simp [pArg, pIndex, h]
+
+theorem pStmt_measure (q : Nat) (c : String) (i : Nat) (rest : List Tok) :
+    (pStmt (lineToks (.meas q c i) ++ rest) : Option (Stmt V × List Tok))
+      = some (.measure (qArg q) ⟨c, some i⟩, rest) := by
+  have h1 := pArg_loc q (.sym "->" :: .id c :: .sym "[" :: .num (toString i) :: .sym "]" ::
+    .sym ";" :: rest)
+  have h2 := pArg_bit c i (.sym ";" :: rest)
+  have hs : (pStmt (.kw "measure" :: (locToks q ++ .sym "->" :: .id c :: .sym "[" ::
+      .num (toString i) :: .sym "]" :: .sym ";" :: rest)) : Option (Stmt V × List Tok))
+      = pQop (.kw "measure" :: (locToks q ++ .sym "->" :: .id c :: .sym "[" ::
+      .num (toString i) :: .sym "]" :: .sym ";" :: rest)) := by
+    simp [pStmt]
+  simp only [lineToks, List.cons_append, List.append_assoc, List.nil_append]
+  rw [hs, pQop, h1]
+  simp only []
+  rw [h2]
+  rfl
+
+theorem pStmt_line (l : PLine) (op : Op V) (A : Arith V) (table : List BuiltinDef) (n : Nat)
+    (cregs : Regs) (h : l.Reads A table n cregs op) (rest : List Tok) :
+    (pStmt (lineToks l ++ rest) : Option (Stmt V × List Tok)) = some (l.stmt, rest) := by
+  cases l with
+  | op o => exact pStmt_op o h.1.shape rest
+  | meas q c i => exact pStmt_measure q c i rest
+
+theorem elabStmt_line (A : Arith V) (s : St V) (n : Nat) (hq : s.qregs = [("q", n)])
+    (hcn : (s.cregs.map Prod.fst).Nodup) (l : PLine)
+    (op : Op V) (h : l.Reads A s.table n s.cregs op) :
+    elabStmt A s l.stmt = some { s with ops := op :: s.ops } := by
+  cases l with
+  | op o => exact elabStmt_op A s n hq o op h.1 h.2
+  | meas q c i =>
+    simp only [PLine.Reads] at h
+    obtain ⟨hqn, ⟨sz, hsz, hlt⟩, rfl⟩ := h
+    have ha := argIndices_q n q hqn
+    simp only [qArg] at ha
+    simp [PLine.stmt, elabStmt, elabMeasure, hq, ha, regSize, hsz, qArg,
+      clbitOk_of_lt hcn hsz hlt]
+
+theorem PLine.Reads.loc {A : Arith V} {table : List BuiltinDef} {n : Nat} {cregs : Regs}
+    {l : PLine} {op : Op V} (h : l.Reads A table n cregs op) :
+    op.loc ≠ [] ∧ ∀ q ∈ op.loc, q < n := by
+  cases l with
+  | op o =>
+    obtain ⟨hl, hne⟩ := h.1.loc
+    rw [hl]
+    exact ⟨hne, h.2⟩
+  | meas q c i =>
+    simp only [PLine.Reads] at h
+    obtain ⟨hqn, _, rfl⟩ := h
+    simp [Op.loc, hqn]
 
 /-! ## the whole program -/
 
-theorem opToks_cons (o : POp) : ∃ t0 t, opToks o = t0 :: t := ⟨_, _, rfl⟩
+/-- token chunks that each parse to one statement, whatever follows -/
+def Chunks (cs : List (List Tok × Stmt V)) : Prop :=
+  ∀ c ∈ cs, c.1 ≠ [] ∧ ∀ rest, pStmt (c.1 ++ rest) = some (c.2, rest)
 
-theorem pProgram_ops (ops : List POp) (hne : ∀ o ∈ ops, o.Shape) (f : Nat)
-    (hf : ops.length + 1 ≤ f) :
-    (pProgram f ((ops.map opToks).flatten) : Option (List (Stmt V) × List Tok))
-      = some (ops.map POp.stmt, []) := by
-  induction ops generalizing f with
+theorem pProgram_chunks (cs : List (List Tok × Stmt V)) (hc : Chunks cs) (f : Nat)
+    (hf : cs.length + 1 ≤ f) :
+    pProgram f ((cs.map (·.1)).flatten) = some (cs.map (·.2), []) := by
+  induction cs generalizing f with
   | nil =>
     obtain ⟨k, rfl⟩ : ∃ k, f = k + 1 := ⟨f - 1, by simp at hf; omega⟩
     simp [pProgram]
-  | cons o os ih =>
+  | cons c cs ih =>
     obtain ⟨k, rfl⟩ : ∃ k, f = k + 1 := ⟨f - 1, by simp at hf; omega⟩
-    have hst := pStmt_op (V := V) o (hne o (by simp)) ((os.map opToks).flatten)
-    have ih' := ih (fun o' ho' => hne o' (by simp [ho'])) k (by simp at hf ⊢; omega)
-    obtain ⟨t0, t, ht⟩ := opToks_cons o
+    obtain ⟨hne, hst⟩ := hc c (by simp)
+    have hst' := hst ((cs.map (·.1)).flatten)
+    have ih' := ih (fun c' hc' => hc c' (by simp [hc'])) k (by simp at hf ⊢; omega)
     simp only [List.map_cons, List.flatten_cons]
-    rw [ht] at hst ⊢
-    simp only [List.cons_append] at hst ⊢
-    simp only [pProgram, hst, ih']
+    obtain ⟨toks, st⟩ := c
+    cases toks with
+    | nil => exact absurd rfl hne
+    | cons t0 t =>
+      simp only [List.cons_append] at hst' ⊢
+      simp only [pProgram, hst', ih']
 
-theorem elabStmts_ops (A : Arith V) (table : List BuiltinDef) (n : Nat) (ops : List POp)
-    (exp : List (Op V)) (h : ReadsAll A table ops exp) (s : St V)
-    (hq : s.qregs = [("q", n)]) (ht : s.table = table) :
-    elabStmts A s (ops.map POp.stmt) = some { s with ops := exp.reverse ++ s.ops } := by
+theorem lineToks_ne_nil (l : PLine) : lineToks l ≠ [] := by
+  cases l <;> simp [lineToks, opToks]
+
+theorem pStmt_creg (c : String × Nat) (rest : List Tok) :
+    (pStmt (cregToks c ++ rest) : Option (Stmt V × List Tok)) = some (.creg c.1 c.2, rest) := by
+  have hnn : parseNNInt (Nat.repr c.2) = some c.2 := parseNNInt_toString c.2
+  simp [cregToks, pStmt, pIndex, hnn]
+
+/-- declaring classical registers with distinct, new names -/
+theorem elabStmts_cregs (A : Arith V) :
+    ∀ (cregs : Regs) (s : St V), ((s.cregs ++ cregs).map Prod.fst).Nodup →
+      ∀ (rest : List (Stmt V)),
+        elabStmts A s (cregs.map (fun c => (.creg c.1 c.2 : Stmt V)) ++ rest)
+          = elabStmts A { s with cregs := s.cregs ++ cregs } rest
+  | [], s, _, rest => by simp
+  | c :: cs, s, hnd, rest => by
+    have hnew : (s.cregs.any (·.1 == c.1)) = false := by
+      simp only [List.map_append, List.map_cons, List.nodup_append, List.nodup_cons] at hnd
+      obtain ⟨_, _, hdisj⟩ := hnd
+      rw [Bool.eq_false_iff]
+      intro hany
+      simp only [List.any_eq_true, beq_iff_eq] at hany
+      obtain ⟨p, hp, hpe⟩ := hany
+      exact hdisj p.1 (by simp only [List.mem_map]; exact ⟨p, hp, rfl⟩) c.1 (by simp) hpe
+    simp only [List.map_cons, List.cons_append, elabStmts, elabStmt, hnew, Bool.false_eq_true,
+      if_false, Option.bind_some]
+    have := elabStmts_cregs A cs { s with cregs := s.cregs ++ [c] }
+      (by simpa [List.append_assoc] using hnd) rest
+    simpa [List.append_assoc] using this
+
+theorem elabStmts_lines (A : Arith V) (table : List BuiltinDef) (n : Nat) (cregs : Regs)
+    (ls : List PLine) (exp : List (Op V)) (h : ReadsAll A table n cregs ls exp) (s : St V)
+    (hq : s.qregs = [("q", n)]) (ht : s.table = table) (hc : s.cregs = cregs)
+    (hcn : (cregs.map Prod.fst).Nodup) :
+    elabStmts A s (ls.map PLine.stmt) = some { s with ops := exp.reverse ++ s.ops } := by
   induction h generalizing s with
   | nil => simp [elabStmts]
-  | @cons o op os es hd _ ih =>
-    subst ht
-    simp only [List.map_cons, elabStmts, elabStmt_op A s n hq o op hd, Option.bind_some]
-    rw [ih { s with ops := op :: s.ops } hq rfl]
+  | @cons l op ls es hd _ ih =>
+    subst ht; subst hc
+    simp only [List.map_cons, elabStmts, elabStmt_line A s n hq hcn l op hd, Option.bind_some]
+    rw [ih { s with ops := op :: s.ops } hq rfl rfl]
     simp
 
-theorem forall2_loc (A : Arith V) (table : List BuiltinDef) (ops : List POp) (exp : List (Op V))
-    (h : ReadsAll A table ops exp) (n : Nat)
-    (hr : ∀ o ∈ ops, ∀ q ∈ o.loc, q < n) :
+theorem readsAll_loc (A : Arith V) (table : List BuiltinDef) (n : Nat) (cregs : Regs)
+    (ls : List PLine) (exp : List (Op V)) (h : ReadsAll A table n cregs ls exp) :
     ∀ op ∈ exp, op.loc ≠ [] ∧ ∀ q ∈ op.loc, q < n := by
   induction h with
   | nil => simp
-  | @cons o op os es hd _ ih =>
+  | @cons l op ls es hd _ ih =>
     intro op' hop'
     simp only [List.mem_cons] at hop'
     rcases hop' with rfl | hmem
-    · obtain ⟨hl, hne⟩ := hd.loc
-      rw [hl]
-      exact ⟨hne, hr o (by simp)⟩
-    · exact ih (fun o' ho' => hr o' (by simp [ho'])) op' hmem
+    · exact hd.loc
+    · exact ih op' hmem
 
 theorem parseProgram_header (n : Nat) (body : List Tok) (ss : List (Stmt V))
     (h : ∀ f, body.length + 1 ≤ f → pProgram f body = some (ss, [])) :
@@ -432,45 +540,72 @@ theorem parseProgram_header (n : Nat) (body : List Tok) (ss : List (Stmt V))
   simp only [pProgram, pStmt, pIndex, hnn, Option.map_some, h1]
   simp
 
-/-- **the writer's text (as tokens) is read back as the same operations** -/
-theorem decodeToks_programToks (A : Arith V) (table : List BuiltinDef) (n : Nat) (hn : 0 < n)
-    (ops : List POp) (exp : List (Op V)) (h : ReadsAll A table ops exp)
-    (hr : ∀ o ∈ ops, ∀ q ∈ o.loc, q < n) :
-    decodeToks A table (programToks n ops) = some ⟨n, [], exp⟩ := by
-  have hne : ∀ o ∈ ops, o.Shape := by
-    intro o ho
-    have := h
-    clear hr
-    induction h with
-    | nil => simp at ho
-    | @cons o' op' os es hd tl ih =>
-      simp only [List.mem_cons] at ho
-      rcases ho with rfl | hmem
-      · exact hd.shape
-      · exact ih hmem tl
-  have hparse : (parseProgram (programToks n ops) : Option (List (Stmt V)))
-      = some (.incl "qelib1.inc" :: .qreg "q" n :: ops.map POp.stmt) := by
-    unfold programToks
+theorem flatten_length_ge {α : Type} (cs : List (List α)) (h : ∀ c ∈ cs, c ≠ []) :
+    cs.length ≤ cs.flatten.length := by
+  induction cs with
+  | nil => simp
+  | cons c cs ih =>
+    have := ih (fun c' hc' => h c' (by simp [hc']))
+    have hc := h c (by simp)
+    cases c with
+    | nil => exact absurd rfl hc
+    | cons a as => simp only [List.flatten_cons, List.length_append, List.length_cons]; omega
+
+/-- **the writer's text (as tokens) is read back as the same operations** — gate lines,
+barriers, resets, classical register declarations and measurements -/
+theorem decodeToks_programToksM (A : Arith V) (table : List BuiltinDef) (n : Nat) (hn : 0 < n)
+    (cregs : Regs) (hcn : (cregs.map Prod.fst).Nodup) (ls : List PLine) (exp : List (Op V))
+    (h : ReadsAll A table n cregs ls exp) :
+    decodeToks A table (programToksM n cregs ls) = some ⟨n, cregs, exp⟩ := by
+  -- the chunks
+  let cs : List (List Tok × Stmt V) :=
+    cregs.map (fun c => (cregToks c, .creg c.1 c.2)) ++ ls.map (fun l => (lineToks l, l.stmt))
+  have hchunks : Chunks cs := by
+    intro c hc
+    simp only [cs, List.mem_append, List.mem_map] at hc
+    rcases hc with ⟨r, _, rfl⟩ | ⟨l, hl, rfl⟩
+    · exact ⟨by simp [cregToks], fun rest => pStmt_creg r rest⟩
+    · refine ⟨lineToks_ne_nil l, fun rest => ?_⟩
+      clear hn hcn
+      induction h with
+      | nil => simp at hl
+      | @cons l' op' ls' es' hd _ ih =>
+        simp only [List.mem_cons] at hl
+        rcases hl with rfl | hl
+        · exact pStmt_line l op' A table n cregs hd rest
+        · exact ih hl
+  have htoks : (cs.map (·.1)).flatten
+      = (cregs.map cregToks).flatten ++ (ls.map lineToks).flatten := by
+    simp [cs, List.map_append, List.flatten_append, Function.comp_def]
+  have hstmts : cs.map (·.2)
+      = cregs.map (fun c => (.creg c.1 c.2 : Stmt V)) ++ ls.map PLine.stmt := by
+    simp [cs, List.map_append, Function.comp_def]
+  have hlen : cs.length ≤ ((cs.map (·.1)).flatten).length := by
+    have := flatten_length_ge (cs.map (·.1)) (by
+      intro c hc
+      simp only [List.mem_map] at hc
+      obtain ⟨p, hp, rfl⟩ := hc
+      exact (hchunks p hp).1)
+    simpa using this
+  have hparse : (parseProgram (programToksM n cregs ls) : Option (List (Stmt V)))
+      = some (.incl "qelib1.inc" :: .qreg "q" n :: cs.map (·.2)) := by
+    unfold programToksM
+    rw [← htoks]
     apply parseProgram_header
     intro f hf
-    have hl : ops.length ≤ ((ops.map opToks).flatten).length := by
-      clear hf hne hr h
-      induction ops with
-      | nil => simp
-      | cons o os ih =>
-        obtain ⟨t0, t, ht⟩ := opToks_cons o
-        simp only [List.map_cons, List.flatten_cons, List.length_append, ht, List.length_cons]
-        omega
-    exact pProgram_ops ops hne f (by omega)
-  have hel := elabStmts_ops A table n ops exp h
-    { table := table, qregs := [("q", n)] } rfl rfl
-  have hfin := forall2_loc A table ops exp h n hr
+    exact pProgram_chunks cs hchunks f (by omega)
+  have hfin := readsAll_loc A table n cregs ls exp h
   unfold decodeToks
-  rw [hparse]
+  rw [hparse, hstmts]
   simp only [Option.bind_some, elabStmts, elabStmt, List.any_nil, Bool.false_eq_true, if_false,
-    List.nil_append, hel]
-  simp only [finish, totalSize, List.map_cons, List.map_nil, List.sum_cons, List.sum_nil,
-    Nat.add_zero, List.append_nil, List.reverse_reverse]
+    List.nil_append]
+  rw [elabStmts_cregs A cregs _ (by simpa using hcn)]
+  have hel := elabStmts_lines A table n cregs ls exp h
+    { table := table, qregs := [("q", n)], cregs := [] ++ cregs } rfl rfl (by simp) hcn
+  simp only [List.nil_append] at hel ⊢
+  rw [hel]
+  simp only [Option.bind_some, finish, totalSize, List.map_cons, List.map_nil, List.sum_cons,
+    List.sum_nil, Nat.add_zero, List.append_nil, List.reverse_reverse]
   have h0 : (n == 0) = false := by simp; omega
   have hall : (exp.all fun o => !o.loc.isEmpty && o.loc.all (· < n)) = true := by
     simp only [List.all_eq_true, decide_eq_true_eq, Bool.and_eq_true, Bool.not_eq_true',
